@@ -386,8 +386,7 @@ def validation_events(v, sid, desc, prof, rnd):
     st = T.structure(v, sid)
     for (mode, names, conf) in groups.instances(st, rnd, True)[:3]:
         # (a segment the version defines without fields - withdrawn, e.g. URD in 2.8.2 - conforms only when bare)
-        text = "\r".join([groups.msh(v, sid)] + [groups.seg_text(n, i + 1) if T.seg_rows(v, n) else n
-                                                  for i, n in enumerate(names[1:])])
+        text = "\r".join([groups.msh(v, sid)] + [groups.seg_text(n, i + 1, v) for i, n in enumerate(names[1:])])
         try:
             m = parse_message(text, message_profile=prof)
         except Exception as ex:
